@@ -40,7 +40,8 @@ def _tag(s):
 
 WITH = {"de_plus1": (("u", 32), _plus1), "de_tag": ("str", _tag), "de_some_plus1": (("u", 32), lambda s: "(some %s)" % _plus1(s))}
 
-NEW = ["DW", "DWT", "DK", "DO", "DOF", "DAr", "DGen_u32", "DGen_String", "DGen_DOF", "DGW_u32", "DGW_String", "DGT_i32", "DL", "DN"]
+NEW = ["DW", "DWT", "DK", "DO", "DOF", "DAr", "DGen_u32", "DGen_String", "DGen_DOF", "DGW_u32", "DGW_String", "DGT_i32", "DL", "DN",
+       "D1T"]      # w_derive: one field, with a token (key hint `token_count > 0`)
 
 _cache = {}
 
